@@ -381,6 +381,9 @@ func checkEvaluatorPipeline(r *Run, prog *Program, a *Anchors, pfx string) {
 	// Evaluate re-issues exactly: WithTagName(eval.tagName), WithHookFn(eval.hook), and WithUnknownValue(*eval.unknownVal) iff non-nil
 	pRecv := paramSym(a.EvaluateM.Params[0])
 	psE := NewPathSim(prog)
+	psE.Inline = func(c *ssa.Function) bool {
+		return prog.InModule(c) && c != a.Dispatch && c.Signature.Recv() != nil && namedIs(c.Signature.Recv().Type(), modPath, "Evaluator")
+	}
 	npaths := 0
 	for _, sm := range psE.Run(a.EvaluateM) {
 		for _, ev := range sm.callsTo(a.Dispatch) {
